@@ -255,44 +255,28 @@ def header_templates(prog, chk, A9, mut):
         raise AnalysisBroken('A9: no member template of the handle classes found (crate::add_tracks is one)')
 
 
-def _runs_creator(f):
-    for call in walk(f.body):
-        if call.get('kind') == 'CXXMemberCallExpr' and strip(children(call)[0]).get('name') == 'create':
-            recv = children(strip(children(call)[0]))
-            if 'schema_creator_validator' in ((strip(recv[0]).get('type') or '') if recv else ''):
-                return True
-    return False
-
-
 def creation_is_atomic(prog, cg, chk, A7):
+    from . import c17
     n = 0
-    runs_creator = {f.key for f in prog.functions.values() if not f.is_pattern and f.body is not None
-                    and prog.in_repo(f.file) and '/schema/' not in (f.file or '') and _runs_creator(f)}
-    for f in prog.functions.values():
-        if f.is_pattern or f.body is None or not prog.in_repo(f.file) or '/schema/' in (f.file or ''):
-            continue
+    # the calls `<creator>->create(db)` outside the schema classes' own members, and the calls of the helpers that
+    # hand their database parameter on to one (`create_schema(schema, db)`, wherever it is defined), transitively
+    vc = c17.validator_calls(prog, 'create')
+    for f in vc.funcs.values():
         if 'temporary' in f.name:
             continue        # nothing on disk to leave behind
-        parent = {}
-        for x in walk(f.body):
-            for c in children(x):
-                parent[id(c)] = x
         opens_files = any(e.name and e.name.split('::')[-1] in ('create_legacy_sqlite_database',
                                                                 'create_database2_sqlite_database')
                           for e in cg.edges(f))
         if not opens_files:
             continue
-        via_helper = {id(e.node) for e in cg.edges(f)
-                      if any(t.key in runs_creator and t.key != f.key for t in e.targets)}
+        parent = vc.parents(f)
+        standing = {id(call) for call, t in vc.sites.get(f.key, [])}
+        # a helper of the repository that runs the creator on a database it reaches otherwise (a member)
+        standing |= {id(e.node) for e in cg.edges(f)
+                     if any(t.key in vc.direct and t.key != f.key for t in e.targets)}
         for call in walk(f.body):
-            if id(call) in via_helper:
-                pass            # a helper of the repository that runs the creator (create_schema(db, schema))
-            else:
-                if call.get('kind') != 'CXXMemberCallExpr' or strip(children(call)[0]).get('name') != 'create':
-                    continue
-                recv = children(strip(children(call)[0]))
-                if 'schema_creator_validator' not in ((strip(recv[0]).get('type') or '') if recv else ''):
-                    continue
+            if id(call) not in standing:
+                continue
             n += 1
             chk.analysed(f)
             short = f.qualname.replace('djinterop::engine::', '')
